@@ -2,6 +2,7 @@
 from __future__ import annotations
 
 import json
+import time
 from typing import List
 
 from harness.lib.core import VERIF, Ctx, lean_lock, load_findings, run_driver, shrink_ops, sig_matches
@@ -29,6 +30,8 @@ MANIFEST = {
 }
 MODULES = ["PrimaiteModel.Props.C18", "PrimaiteModel.Props.C18Accept"]
 EXE = "drv_c18"
+SHRINK_PER_SIG = 2      # failing traces minimised per distinct presumptive signature
+SHRINK_WALL = 40.0      # seconds of minimisation after which further failing traces are reported unminimised
 
 
 def _first_diff(a: List[str], b: List[str]) -> int:
@@ -110,6 +113,8 @@ def run(ctx: Ctx):
     known = 0
     open_f = [f for f in load_findings() if f["property"] == "C18" and f.get("status") == "open"]
     maxdepth = 0
+    failing_by_sig: dict = {}
+    shrink_spent = [0.0]
     for (name, case), r, (st, ln) in zip(cases, results, bounds):
         if r is None:
             continue
@@ -176,17 +181,32 @@ def run(ctx: Ctx):
                               {"case": case, "oracle": orc[:5], "from": name})
             continue
         kinds = {o["kind"] for o in orc} or {"model-vs-impl"}
+        # Search stage, bounded: `Ctx.finish` writes ONE replay per distinct signature, so only the first failing traces of a
+        # presumptive signature are minimised (each minimisation re-runs the implementation and the driver up to 60 times); the
+        # rest are counted. Without the bound a change that breaks most traces (seeded C18-a: 563 of 920) cost 233 s.
+        pre_sig = json.dumps(_oracle_sig(orc[0]) if orc else {"kind": "model-vs-impl", "line": (r["lines"][di] if di < len(r["lines"]) else "?").split()[0]},
+                             sort_keys=True)
+        failing_by_sig[pre_sig] = failing_by_sig.get(pre_sig, 0) + 1
+        ctx.count("failing-trace:" + (orc[0]["kind"] if orc else "model-vs-impl"))
+        if failing_by_sig[pre_sig] > SHRINK_PER_SIG or shrink_spent[0] > SHRINK_WALL:
+            if failing_by_sig[pre_sig] > SHRINK_PER_SIG:
+                continue            # same class as a trace already minimised and reported
+            small, orc2, di2, r2, model2 = case, orc, di, r, model     # out of search time: reported unminimised
+        else:
+            t1 = time.time()
 
-        def fails(ops, case=case, kinds=kinds):
-            return _fails(dict(case, ops=ops), kinds)
-        small = dict(case, ops=shrink_ops(case["ops"], fails, budget=60))
-        try:
-            orc2, di2, r2, model2 = _eval_case(small)
-            orc2 = [o for o in orc2 if o["kind"] != "exception"]
-        except Exception:
-            orc2, di2, r2, model2 = [], -1, r, model
-        if not orc2 and di2 < 0:
-            small, orc2, di2, r2, model2 = case, orc, di, r, model
+            def fails(ops, case=case, kinds=kinds):
+                return _fails(dict(case, ops=ops), kinds)
+            small = dict(case, ops=shrink_ops(case["ops"], fails, budget=60))
+            try:
+                orc2, di2, r2, model2 = _eval_case(small)
+                orc2 = [o for o in orc2 if o["kind"] != "exception"]
+            except Exception:
+                orc2, di2, r2, model2 = [], -1, r, model
+            if not orc2 and di2 < 0:
+                small, orc2, di2, r2, model2 = case, orc, di, r, model
+            shrink_spent[0] += time.time() - t1
+            ctx.cov["search_wall_s"] = round(shrink_spent[0], 2)
         if orc2:
             o = orc2[0]
             ctx.violation(_oracle_sig(o), f"{o['kind']} ({o.get('medium', '-')}) at op {o['op']} {small['ops'][o['op']]}: {json.dumps(o)}",
